@@ -55,6 +55,17 @@ func (e *Env) SetNow(t int64) {
 
 var mockClock int64
 var mockInstalled bool
+var wallClock int32
+
+// UseWallClock switches jwt.TimeFunc (a process-wide variable) between the harness clock of the mock APIs
+// and the wall clock the whole relay runs on. Mock cases and real-relay cases never run at the same time.
+func UseWallClock(on bool) {
+	if on {
+		atomic.StoreInt32(&wallClock, 1)
+	} else {
+		atomic.StoreInt32(&wallClock, 0)
+	}
+}
 
 // StartMockAPI starts a real access.API with its own stores; jwt.TimeFunc and the deny store's clock are
 // the harness's (shared by every mock API of the process).
@@ -64,7 +75,12 @@ func StartMockAPI(ae bool) *Env {
 	if !mockInstalled {
 		mockInstalled = true
 		atomic.StoreInt64(&mockClock, time.Now().Unix())
-		jwt.TimeFunc = func() time.Time { return time.Unix(atomic.LoadInt64(&mockClock), 0) }
+		jwt.TimeFunc = func() time.Time {
+			if atomic.LoadInt32(&wallClock) == 1 {
+				return time.Now()
+			}
+			return time.Unix(atomic.LoadInt64(&mockClock), 0)
+		}
 	}
 	port := lib.FreePorts(1)[0]
 	ds := deny.New()
@@ -345,6 +361,9 @@ func (r *Runner) Run(c *Case) {
 		switch o.K {
 		case "req":
 			out = r.doReq(i, o.Req)
+			if o.Req.SettleMs > 0 {
+				time.Sleep(time.Duration(o.Req.SettleMs) * time.Millisecond)
+			}
 		case "ws":
 			o.CodeN, out = r.doWs(o.Ws)
 		case "leave":
